@@ -48,6 +48,12 @@ class Poly(object):
 
 def mk_callable(spec):
     k = spec['kind']
+    if k == 'poly' and spec.get('cut') is not None:
+        base = Poly(spec['coefs'], False, False); cut = spec['cut']
+        class Cut(object):
+            def __call__(self, r): return base(r) if r <= cut else 0.0
+            def d(self, r): return base.d(r) if r <= cut else 0.0
+        return Cut()
     if k == 'poly': return Poly(spec['coefs'], spec.get('deriv', True), spec.get('deriv2', False))
     if k == 'exp':
         A, b = spec['A'], spec['b']
